@@ -40,8 +40,14 @@ pub fn check_tuple(run: &mut Run, c: MCell) -> Option<u64> {
     }
     match flatten(guard(|| deserialize(want))) {
         Ok(d) => {
+            // the decoded description must be the canonical one: fields a resolution does not use are zero
             let same = d.resolution == c.res
-                && (c.res < 0 || (d.origin_id == c.face && (c.res < 1 || d.segment == c.segment()) && (c.res < 2 || d.s == c.s)));
+                && match c.res {
+                    -1 => d.origin_id == 0 && d.segment == 0 && d.s == 0,
+                    0 => d.origin_id == c.face && d.segment == 0 && d.s == 0,
+                    1 => d.origin_id == c.face && d.segment == c.segment() && d.s == 0,
+                    _ => d.origin_id == c.face && d.segment == c.segment() && d.s == c.s,
+                };
             if !same {
                 run.violation("C05.decode", case(), format!("deserialize({}) = {:?}, expected face {} segment {} s {} res {}", hu(want), d, c.face, c.segment(), c.s, c.res));
             }
